@@ -27,6 +27,10 @@ import (
 func (n *RaftNode) CreateBackup() error {
 	n.Lock()
 	defer n.Unlock()
+	// no insertion may be between "computed" (version advanced) and "persisted"
+	// while the version is read and the store is copied
+	n.applyMu.RLock()
+	defer n.applyMu.RUnlock()
 
 	v := n.balloon.Version()
 	metadata := fmt.Sprintf("%d", v-1)
